@@ -968,6 +968,8 @@ def mag_diff_exact(vals, ra, rb, rf):
 @pred
 def invert_laws(vals, rp, rc, radbits, roff, rinv):
     p, c, off, q = vals[rp], vals[rc], vals[roff], vals[rinv]
+    if _isP(p) or _isP(c):
+        return None            # second-level call on an inversion that (legitimately or not) panicked: judged by the call that produced it
     if v(off[1]) == 0:
         return None if _isP(q) else 'inversion of the circle centre did not panic'
     if _isP(q): return 'invert_circle panicked although the point is not the centre'
